@@ -117,7 +117,17 @@ class WrappedDispatcher:
         read_callback: Callable,
         check_callback: Callable,
     ) -> None:
-        self.dispatcher.read(sock, read_callback)
+        pending = getattr(sock, "pending", None)
+
+        def read_buffered():
+            # frames that TLS has decrypted already do not make the descriptor
+            # readable again: hand them over before going back to the event loop
+            result = read_callback()
+            while result and pending and pending():
+                result = read_callback()
+            return result
+
+        self.dispatcher.read(sock, read_buffered if pending else read_callback)
         self.ping_timeout and self.timeout(self.ping_timeout, check_callback)
 
     def send(self, sock: socket.socket, data: Union[str, bytes]) -> None:
